@@ -10,6 +10,7 @@ from datetime import datetime, timedelta
 from .. import corpus
 from ..build import Build, BuildError, TYPE_NAMES, WRAPPERS
 from ..core import Result
+from ..values import hints_of
 
 PROP = "C03"
 LEVEL = "translation_validation"
@@ -130,7 +131,7 @@ def check_message(b, mi, c, res: Result, w, name):
 
     try:
         flds = dataclasses.fields(c)
-        hints = c._type_hints()
+        hints = hints_of(c)
     except Exception as e:
         res.violation("class", ["introspection-raised:" + type(e).__name__], f"{name}: {mi.full_name}: {e!r}", w)
         return
@@ -365,7 +366,7 @@ def check_bundled(res: Result):
                     if meta.proto_type != want:
                         res.violation("bundled", ["proto-type", want], f"{fdp.package}.{flat}.{fd.name} (#{fd.number}): proto_type {meta.proto_type!r}, descriptor says {want!r}", w)
                     try:
-                        hint = cls._type_hints()[f.name]
+                        hint = hints_of(cls)[f.name]
                         is_list = getattr(hint, "__origin__", None) is list
                         if (fd.label == 3 and not is_map) != is_list:
                             res.violation("bundled", ["cardinality", want], f"{fdp.package}.{flat}.{fd.name}: repeated={fd.label == 3} but hint {hint!r}", w)
